@@ -341,11 +341,17 @@ def concrete_playback(unit, harness_id, prop):
                          r"let concrete_vals: Vec<Vec<u8>> = vec!\[(.*?)\n    \];", out1, re.S):
         tests.append({"category": m.group(1), "check": m.group(2).strip(), "test": m.group(3), "vals": m.group(4)})
     fail_tests = [t for t in tests if t["category"] != "cover"]
-    if not fail_tests:
+    # what failed in THIS run (the current tree): nothing => nothing to reproduce
+    failed_descs = [d.strip().strip('"').strip() for d in re.findall(r"^Failed Checks: (.*)$", out1, re.M)]
+    failed_descs = [d for d in failed_descs if d]
+    if not failed_descs:
+        fail_tests = []
+    elif not fail_tests:
         # Kani emits ONE test per distinct set of concrete values and labels it with the first check it serves: when
         # the failing assertion's trace coincides with a cover witness's trace, only "cover"-labelled tests exist.
-        # They are replayed instead: the harness body is the same, a native panic is the assertion failing.
-        fail_tests = list(tests)
+        # They are replayed instead, but a cover trace may stop before later kani::any() calls (the native run then
+        # panics for lack of values): such a run only counts if the panic message is one of the failed checks.
+        fail_tests = [dict(t, need_message=True) for t in tests]
     record = {"property": prop, "harness": harness_id, "crate": unit.crate, "source": unit.path,
               "tests": tests, "kani_output_tail": out1[-3000:], "native": []}
     reproduced = None
@@ -369,6 +375,8 @@ def concrete_playback(unit, harness_id, prop):
                 q = subprocess.run(cmd2, cwd=work, env=env, stdout=subprocess.PIPE, stderr=subprocess.STDOUT, text=True)
                 ran = "running 1 test" in q.stdout
                 failed = ran and (("test result: FAILED" in q.stdout) or ("panicked at" in q.stdout) or q.returncode != 0)
+                if failed and t.get("need_message") and not any(d in q.stdout for d in failed_descs):
+                    failed = False
                 record["native"].append({"profile": "release" if release else "dev", "test": t["native_test"],
                                          "check": t["check"], "ran": ran, "failed": failed, "tail": q.stdout[-1500:]})
                 if ran and failed:
